@@ -91,7 +91,7 @@ impl Monitor for C01 {
     }
     fn run_case(&self, stream: &str, idx: u64, seed: u64, rec: &mut Recorder) {
         let input = v1_case(stream, idx, seed);
-        judge(&input, rec);
+        spec::sib::run_v1(&input, idx, 4, |input| judge(input, rec));
     }
     fn floor(&self, tier: Tier) -> Vec<&'static str> {
         if tier == Tier::Miri {
